@@ -280,7 +280,7 @@ fn digit(b: u8) -> u32 {
     (b - b'0') as u32
 }
 
-//@ unit c15_hr_ym prop=C15,C06,C04,C03 unwind=14 mem=8 timeout=1800 stubs=once_cell::imp::initialize_inner=>crate::serialize::verif_h_serde_rt::stub_once_init,crate::util::try_format=>crate::verif_support::stub_try_format,chrono::Local::now=>crate::verif_support::stub_local_now bound="every year-month interval: the human-readable form is sign, years (at least 4 digits), '-', 2-digit months, fits 32 bytes, and decodes to the same value"
+//@ unit c15_hr_ym prop=C15,C06 tier=thorough unwind=14 mem=12 timeout=7200 stubs=once_cell::imp::initialize_inner=>crate::serialize::verif_h_serde_rt::stub_once_init,crate::util::try_format=>crate::verif_support::stub_try_format,chrono::Local::now=>crate::verif_support::stub_local_now bound="every year-month interval: the human-readable form is sign, years (at least 4 digits), '-', 2-digit months, fits 32 bytes, and decodes to the same value"
 fn c15_hr_ym() {
     let m = any_i32_in(-YM_MAX, YM_MAX);
     let v = mk_ym(m);
